@@ -871,7 +871,7 @@ func (rule *RuleExpression) calcNeedsType(job *Job) *ObjectType {
 func (rule *RuleExpression) populateDependantNeedsTypes(out *ObjectType, job *Job, root *Job) {
 	for _, id := range job.Needs {
 		i := strings.ToLower(id.Value) // ID is case insensitive
-		if i == root.ID.Value {
+		if i == strings.ToLower(root.ID.Value) {
 			continue // When cyclic dependency exists. This does not happen normally.
 		}
 		if _, ok := out.Props[i]; ok {
